@@ -70,10 +70,9 @@ ScalarEnds(rs)   == \A k \in 1..Len(rs) : rs[k][1] \in Scalars /\ rs[k][2] \in S
 SortedDisjoint(rs) == \A k \in 1..(Len(rs) - 1) : rs[k][2] < rs[k + 1][1]
 \* non-adjacent as numbers (what the macro's range map assumes of a table)
 NonAdjacent(rs)  == \A k \in 1..(Len(rs) - 1) : rs[k][2] + 1 < rs[k + 1][1]
-\* maximal: two consecutive ranges are separated by a scalar that does not satisfy P, or by the gap
-Maximal(rs)      == \A k \in 1..(Len(rs) - 1) :
-                      \/ NextScalar(rs[k][2]) < rs[k + 1][1]
-                      \/ (rs[k][2] = GapLo - 1 /\ rs[k + 1][1] = GapHi + 1)
+\* maximal: two consecutive ranges are separated by a scalar value that does not satisfy P
+\* (U+D7FF and U+E000 are consecutive scalar values: a run across the gap is ONE range)
+Maximal(rs)      == \A k \in 1..(Len(rs) - 1) : NextScalar(rs[k][2]) < rs[k + 1][1]
 
 Correct(rs) == Exact(rs) /\ ScalarEnds(rs) /\ SortedDisjoint(rs) /\ NonAdjacent(rs) /\ Maximal(rs)
 
